@@ -113,6 +113,9 @@ SP_MENU = [(0, 1), (1, 2), (4, 5), (1, 1), (1, 4)]
 # probabilities that are neither multiples of 0.01 nor simple dyadics (a rounding / formatting shortcut in the
 # code under test must show up as a normalisation or success-probability failure)
 ODD_P = [(1, 3), (171, 200), (999, 1000), (1, 128), (2, 7)]
+# probabilities a float "is close" test would confuse with 1 (np.isclose: rtol 1e-5, atol 1e-8) or with 0
+NEAR_ONE = [(99999, 100000), (999999, 1000000)]
+NEAR_ZERO = [(1, 100000)]
 ODD_GAMMA = [(1, 3), (97, 100), (123, 1000), (777, 1000)]
 
 
@@ -142,7 +145,7 @@ def gw_cases(rng, tier):
             if "s" not in tiles:
                 continue
             rows = ["".join(tiles[r * w:(r + 1) * w]) for r in range(h)]
-            sps = (SP_MENU[:4] if (tier == "thorough" and w * h <= 4) else [SP_MENU[k % 4]]) + [ODD_P[k % len(ODD_P)]]
+            sps = (SP_MENU[:4] if (tier == "thorough" and w * h <= 4) else [SP_MENU[k % 4]]) + [(ODD_P + NEAR_ONE)[k % (len(ODD_P) + len(NEAR_ONE))]]
             k += 1
             for sp in sps:
                 add(rows, sp, f"exhaustive-{w}x{h}")
@@ -151,7 +154,7 @@ def gw_cases(rng, tier):
             for _ in range(3000):
                 tiles = [rng.choice(".#gsx") for _ in range(w * h)]
                 tiles[rng.randrange(w * h)] = "s"
-                add(["".join(tiles[r * w:(r + 1) * w]) for r in range(h)], rng.choice(SP_MENU[:4] + ODD_P), f"sample-{w}x{h}")
+                add(["".join(tiles[r * w:(r + 1) * w]) for r in range(h)], rng.choice(SP_MENU[:4] + ODD_P + NEAR_ONE), f"sample-{w}x{h}")
     # random bigger layouts with every option varied
     n = 420 if tier == "quick" else 6000
     for i in range(n):
@@ -173,13 +176,13 @@ def gw_cases(rng, tier):
             kw = dict(fr=[], SC=rng.choice([-1, -2]))
         elif style == 5:    # goals cutting the grid
             rows = cut_layout(rng, max(w, 3), h, "g", "s", ".#x", [6, 2, 1])
-            add(rows, rng.choice(SP_MENU + ODD_P), "cut", **kw)
+            add(rows, rng.choice(SP_MENU + ODD_P + NEAR_ONE), "cut", **kw)
             continue
         must = [kw.get("initf", ["s"])[0]] if rng.random() < 0.5 else []
         rows = rand_layout(rng, w, h, alpha, wts, must)
         if not any(ch in kw.get("initf", ["s"]) for r in rows for ch in r):
             rows[0] = kw.get("initf", ["s"])[-1] + rows[0][1:]
-        add(rows, rng.choice(SP_MENU + ODD_P), "random", **kw)
+        add(rows, rng.choice(SP_MENU + ODD_P + NEAR_ONE), "random", **kw)
     return cases
 
 
@@ -194,7 +197,7 @@ def windy_case(rng, rows, tag, **kw):
 def dom_cases(rng, tier):
     cases = []
     # --- Tiger / LoadUnload / CliffWalking: every parameter value of the menus
-    for (cn, cd) in [(0, 1), (3, 20), (1, 2), (17, 20), (1, 1), (1, 4), (19, 20)] + ODD_P:
+    for (cn, cd) in [(0, 1), (3, 20), (1, 2), (17, 20), (1, 1), (1, 4), (19, 20)] + ODD_P + NEAR_ONE + NEAR_ZERO:
         for (gn, gd) in [(19, 20), (1, 2), (1, 1), ODD_GAMMA[(cn + cd) % len(ODD_GAMMA)]]:
             cases.append(dict(dom="Tiger", CN=cn, CD=cd, GN=gn, GD=gd, tag="menu", rep=dict(co=rng.choice(["float", "int"]))))
     for n in range(1, 9):
@@ -203,7 +206,7 @@ def dom_cases(rng, tier):
     cases.append(dict(dom="CliffWalking", tag="fixed", rep={}, GN=1, GD=1, W=12, H=4,
                       rows=["............", "............", "............", "sxxxxxxxxxxg"]))
     # --- WindyGridWorld
-    wp_menu = [(0, 1), (1, 4), (1, 2), (3, 4), (1, 1), (1, 5)] + ODD_P
+    wp_menu = [(0, 1), (1, 4), (1, 2), (3, 4), (1, 1), (1, 5)] + ODD_P + NEAR_ONE + NEAR_ZERO
     cases.append(windy_case(rng, ["@..$"], "default-feature-rewards", fr=None, rep=dict(grid="plain", fr="default", opts="default")))
     cases.append(windy_case(rng, ["@>.", "..$"], "default-feature-rewards", fr=None, rep=dict(grid="plain", fr="default", opts="explicit")))
     n = 264 if tier == "quick" else 4000
@@ -233,7 +236,7 @@ def dom_cases(rng, tier):
         rows = rand_layout(rng, w, h, alpha, wts, ["@"])
         cases.append(windy_case(rng, rows, "random", **kw))
     # --- HeavenOrHell
-    co_menu = [(0, 1), (1, 2), (19, 20), (1, 1), (3, 4)] + ODD_P
+    co_menu = [(0, 1), (1, 2), (19, 20), (1, 1), (3, 4)] + ODD_P + NEAR_ONE + NEAR_ZERO
     cases.append(dict(dom="HeavenOrHell", rows=None, CN=19, CD=20, SC=-1, HR=50, LR=-50, GN=19, GD=20, tag="default-grid",
                       rep=dict(opts="default")))
     n = 132 if tier == "quick" else 2000
@@ -397,6 +400,44 @@ def observe(case, mutate=None):
         return _observe(case, mutate, np)
 
 
+def alias_probe(case, pomdp):
+    """A caller edits, in place, the container a query returned (clears it), asks again, and puts the content
+    back.  Returns {method: 1 if the model's second answer changed}.  Immutable results are left alone."""
+    out = {}
+    try:
+        obj = build(case)
+        s0 = next(s for s, p in obj.initial_state_dist().items() if p > 0)
+        a0 = list(obj.actions(s0))[0]
+        calls = {"actions": lambda: obj.actions(s0), "initial_state_dist": obj.initial_state_dist,
+                 "next_state_dist": lambda: obj.next_state_dist(s0, a0)}
+        if pomdp:
+            calls["observation_dist"] = lambda: obj.observation_dist(a0, s0)
+        for name, call in calls.items():
+            x = call()
+            if isinstance(x, list):
+                saved = list(x)
+                x.clear()
+                try:
+                    again = list(call())
+                finally:
+                    x[:] = saved
+                out[name] = 0 if again == saved else 1
+            elif isinstance(x, dict):
+                saved = dict(x)
+                try:
+                    x.clear()
+                except TypeError:
+                    continue            # immutable distribution
+                try:
+                    again = dict(call())
+                finally:
+                    x.update(saved)
+                out[name] = 0 if again == saved else 1
+    except Exception:                   # noqa: BLE001 - failures of the interface are reported by the main dump
+        pass
+    return out
+
+
 def _observe(case, mutate, np):
     dom = case["dom"]
     d = {"dom": dom, "error": None, "calls": 0}
@@ -459,6 +500,8 @@ def _observe(case, mutate, np):
     except Exception as e:                      # noqa: BLE001
         d["error"] = err(stage, e)
         return d
+    # --- ownership of returned containers (on a second object; every edit is undone before moving on)
+    d["alias"] = alias_probe(case, pomdp)
     # --- the tabular arrays
     d["arrays"] = {}
     names = ["transition_matrix", "reward_matrix", "action_matrix", "initial_state_vec", "absorbing_state_vec",
@@ -987,6 +1030,22 @@ def judge_arrays(case, d, f):
     return True
 
 
+def judge_alias(case, fresh, d, f):
+    """Ownership of returned containers vs the reference profile printed by TLC: DRIFT level.
+
+    The statement quantifies over layouts and parameters, not over callers that edit returned objects, and
+    the unchanged library itself hands out an internal list (LoadUnload.actions) - so a model that can be
+    edited through a returned container is reported as drift of the reference machine, not as a violation."""
+    ok = True
+    for method, changed in (d.get("alias") or {}).items():
+        f.count("returned_containers_edited_in_place_and_requeried")
+        if changed and method in fresh:
+            ok = False
+            f.drift(f"{case['dom']}.{method}(returns its internal mutable object)",
+                    {"case": describe(case), "effect": "after the caller cleared the returned container the model answers differently"})
+    return ok
+
+
 def tl(x):
     """json value printed by TLC -> hashable key (lists become tuples)."""
     if isinstance(x, list):
@@ -1277,11 +1336,13 @@ def judge_all(ctx, gw, doms, *, dumps=None, tables=None, dtables=None, crosschec
                     gw_crosscheck(c, tab)
                     ctx.count("gridworld_oracle_crosschecks")
                 ok = judge_gridworld(c, tab, d, f) and ok
+                ok = judge_alias(c, tab["fresh"], d, f) and ok
         else:
             recs_i = dtables.get(i - len(gw) + 1, [])
             if not recs_i:
                 raise TLCFailure(f"C20_Domains printed no state for case {c}")
             dyn_ok = judge_domain_dynamics(c, recs_i, d, f)
+            dyn_ok = judge_alias(c, recs_i[0]["fresh"], d, f) and dyn_ok
             if d["error"] is None and not dyn_ok and not f.drifts:
                 pass
             ok = ok and (dyn_ok or d["error"] is not None)
